@@ -75,11 +75,12 @@ TABLE = [
     {'name': 'RetainState_emitD.cfg', 'comment': 'edge emission, database family on the smallest test reactor: write, load, loadReadOnly, deep copies of assemblies (quick)', 'N': 42, 'NVal': 2, 'NGrid': 2, 'MaxDepth': 1, 'MaxLevel': 5, 'keeps': 'KeepsNone', 'acts': 'ActsDbR', 'tree': 'R', 'emit': 'EmitDb', 'dbcls': 'RDbCls', 'copycls': 'RCopyCls', 'calls': 'NoCalls'},
     {'name': 'RetainState_emitD_thorough.cfg', 'comment': 'edge emission, database family on the smallest test reactor, deeper (thorough)', 'N': 54, 'NVal': 2, 'NGrid': 2, 'MaxDepth': 1, 'MaxLevel': 6, 'keeps': 'KeepsNone', 'acts': 'ActsDbR', 'tree': 'R', 'emit': 'EmitDb', 'dbcls': 'RDbCls', 'copycls': 'RCopyCls', 'calls': 'NoCalls'},
     {'name': 'RetainState_asbuilt_dbserial.cfg', 'comment': 'Database.load setting the counter to the largest STORED serial (a seeded change): TLC must refute SerialsBelowNext (selftest only)', 'N': 8, 'NVal': 2, 'NGrid': 2, 'MaxDepth': 1, 'MaxLevel': 6, 'keeps': 'KeepsNone', 'acts': 'ActsDb', 'tree': 'D', 'dbserial': 'db', 'only': ['SerialsBelowNext', 'SerialFresh', 'SerialsUnique']},
-    {'name': 'RetainState_emitU.cfg', 'comment': 'edge emission: cmp.q starts UNSET (parameter without default); keep-sets with exactly one of two same-named definitions (quick)', 'N': 2, 'NVal': 3, 'NGrid': 2, 'MaxDepth': 2, 'MaxLevel': 4, 'keeps': 'KeepsOne', 'acts': 'ActsParams', 'tree': 'D', 'emit': True, 'unset': 'McUnset'},
+    {'name': 'RetainState_emitU.cfg', 'comment': 'edge emission: cmp.q starts UNSET (parameter without default); keep-sets with exactly one of two same-named definitions (quick)', 'N': 2, 'NVal': 2, 'NGrid': 2, 'MaxDepth': 2, 'MaxLevel': 4, 'keeps': 'KeepsOne', 'acts': 'ActsParams', 'tree': 'D', 'emit': True, 'unset': 'McUnset'},
     {'name': 'RetainState_emitU_thorough.cfg', 'comment': 'edge emission: unset start / one-of-two same-named keep-sets, deeper (thorough)', 'N': 2, 'NVal': 3, 'NGrid': 2, 'MaxDepth': 2, 'MaxLevel': 5, 'keeps': 'KeepsOne', 'acts': 'ActsParams', 'tree': 'D', 'emit': True, 'unset': 'McUnset'},
     {'name': 'RetainState_emitL.cfg', 'comment': 'edge emission: block > fuel, clad, bond with LINKED dimensions; copies, scopes, assignments to the linked-to and the linked dimension (quick)', 'N': 8, 'NVal': 2, 'NGrid': 2, 'MaxDepth': 1, 'MaxLevel': 4, 'keeps': 'KeepsLink', 'acts': 'ActsLinkQ', 'tree': 'F', 'emit': 'EmitL', 'unset': 'McUnset', 'link': 'LinkF', 'copycls': 'BlkOnly', 'parof': 'QOnly'},
     {'name': 'RetainState_emitL_thorough.cfg', 'comment': 'edge emission: linked dimensions, copies and pickles of every object (thorough)', 'N': 8, 'NVal': 2, 'NGrid': 2, 'MaxDepth': 1, 'MaxLevel': 4, 'keeps': 'KeepsLink', 'acts': 'ActsLink', 'tree': 'F', 'emit': 'EmitL', 'unset': 'McUnset', 'link': 'LinkF'},
-    {'name': 'RetainState_mcL.cfg', 'comment': 'exhaustive: linked dimensions + unset start, copies and scopes (quick + thorough)', 'N': 8, 'NVal': 2, 'NGrid': 2, 'MaxDepth': 2, 'MaxLevel': 5, 'keeps': 'KeepsLink', 'acts': 'ActsLink', 'tree': 'F', 'unset': 'McUnset', 'link': 'LinkF'},
+    {'name': 'RetainState_mcL.cfg', 'comment': 'exhaustive: linked dimensions + unset start, copies and scopes (quick)', 'N': 8, 'NVal': 2, 'NGrid': 2, 'MaxDepth': 2, 'MaxLevel': 4, 'keeps': 'KeepsLink', 'acts': 'ActsLink', 'tree': 'F', 'unset': 'McUnset', 'link': 'LinkF'},
+    {'name': 'RetainState_mcL_thorough.cfg', 'comment': 'exhaustive: linked dimensions + unset start, copies and scopes (thorough)', 'N': 8, 'NVal': 2, 'NGrid': 2, 'MaxDepth': 2, 'MaxLevel': 5, 'keeps': 'KeepsLink', 'acts': 'ActsLink', 'tree': 'F', 'unset': 'McUnset', 'link': 'LinkF'},
 ]
 
 if __name__ == "__main__":
